@@ -99,6 +99,11 @@ func C08(env *Env) {
 	env.c08MinVersion()
 	env.c08Masks()
 	env.c08Top()
+	// never crashes, for every options value (no precondition on option lengths)
+	env.safetyOf("C08", "validate", "TdxQuote")
+	env.safetyOf("C08", "validate", "RawTdxQuote", "validate.TdxQuote")
+	r.Floor("C08/B1", 10)
+	r.Floor("C08/B2", 10)
 	r.Floor("C08/LEAF", 3)
 	r.Floor("C08/WIRE", 11)
 	r.Floor("C08/MIN", 3)
